@@ -187,9 +187,12 @@ def h12a(code: int, c0: bool, c1: bool, c2: bool) -> bool:
     """Coarse model (atomic critical sections), every interleaving: mutual exclusion, FIFO admission, no deadlock / lost wake-up, serial outcome, readers never wait."""
     nw, with_reader = S("writers"), S("reader")
     commits = [c0, c1, c2][:nw]
-    zone, log, run = _run(nw, with_reader, commits, lambda gens, on_step: run_all(gens, code, on_step=on_step))
+    lead = (0, "work") if S("lead") else None
+    zone, log, run = _run(nw, with_reader, commits, lambda gens, on_step: run_all(gens, code, on_step=on_step, lead=lead))
     if run.leftover != 0:
         return True  # the same schedule is reached with the leftover digits zero
+    if run.span > S("total"):
+        raise AssertionError("schedule integer too narrow: a schedule with %d combinations of choices exists" % run.span)
     hit("schedule")
     return verdict(zone, log, run, commits, nw, with_reader)
 
@@ -198,19 +201,24 @@ def h12a_pre(code, c0, c1, c2):
     nw = S("writers")
     if nw < 3 and c2:
         return False
+    if S("lead") and not (c0 and c1 and c2):
+        return False
     lo, hi = S("codes")
     return lo <= code < hi
 
 
 def h12a_shards(tier):
     # the schedule integer has one digit per scheduling decision; unused high digits must be zero
-    out = [{"fine": False, "writers": 2, "reader": False, "codes": (0, 2**12), "_timeout": 900, "_path_timeout": 120}]
+    out = [{"fine": False, "writers": 2, "reader": False, "codes": (0, 2**12), "total": 2**12, "_timeout": 900, "_path_timeout": 120}]
+    # three writers, the first one admitted before the others start (prunes the symmetric prefixes), all committing
+    top3 = 3**11
+    out.append({"fine": False, "writers": 3, "reader": False, "lead": True, "codes": (0, top3), "total": top3, "_timeout": 1500, "_path_timeout": 120})
     if tier == "thorough":
         top = 3**14
         parts = 27
         step = top // parts
         for k in range(parts):
-            out.append({"fine": False, "writers": 3, "reader": False, "codes": (k * step, (k + 1) * step if k < parts - 1 else top),
+            out.append({"fine": False, "writers": 3, "reader": False, "total": top, "codes": (k * step, (k + 1) * step if k < parts - 1 else top),
                         "_timeout": 3600, "_path_timeout": 120})
     return out
 
@@ -277,7 +285,7 @@ HARNESSES = [
                      "dns.versioned.Zone._commit_version", "dns.versioned.Zone._maybe_wakeup_one_waiter_unlocked",
                      "dns.versioned.Zone._commit_version_unlocked", "dns.versioned.Zone._end_write_unlocked",
                      "dns.zone.Transaction._end_transaction", "dns.transaction.Transaction._end"],
-            bound="2 writers (commit/rollback symbolic), every interleaving at lock / event granularity (schedule = one symbolic integer, one digit per scheduling decision); thorough: 3 writers; the reader is covered by the preemption-bounded H12b",
+            bound="2 writers (commit/rollback symbolic), every interleaving at lock / event granularity; 3 committing writers with the first admitted before the others start, every interleaving of the rest (schedule = one symbolic integer, one digit per scheduling decision); thorough: 3 writers; the reader is covered by the preemption-bounded H12b",
             stubs=["E10", "E6"], outside="> 3 writers; pre-emption inside a critical section (H12b); CPython thread internals", setup=setup),
     Harness("H12b", h12b, h12b_pre, h12b_shards, kind="finite: preemption-bounded schedules of the fine model",
             encodes=["dns.versioned.Zone.writer", "dns.versioned.Zone._end_write", "dns.versioned.Zone._commit_version",
